@@ -138,3 +138,27 @@ def gen_names():
     rest = tail[tail.index('//@END-GENERATED-NAMES'):]
     open(p, 'w').write(head + '//@GENERATED-NAMES\n' + '\n'.join(out) + '\n' + rest)
 gen_names()
+
+
+def gen_arity():
+    EAGER = ["==", "!=", "===", "!==", "!", "!!", "<", "<=", ">", ">=", "+", "-", "*", "/", "%", "max", "min", "merge", "in", "cat", "substr", "log"]
+    DATA = ["var", "missing", "missing_some"]
+    LAZY = ["if", "?:", "or", "and", "map", "filter", "reduce", "all", "some", "none"]
+    ident = {'==': 'eq', '!=': 'ne', '===': 'seq', '!==': 'sne', '!': 'not', '!!': 'notnot', '<': 'lt', '<=': 'lte', '>': 'gt', '>=': 'gte',
+             '+': 'plus', '-': 'minus', '*': 'mul', '/': 'div', '%': 'mod', '?:': 'ternary'}
+    quick = {'==', '!', '<', '+', '-', '*', 'var', 'reduce', 'if'}
+    out = []
+    for t, lst in enumerate([EAGER, DATA, LAZY]):
+        for nm in lst:
+            idn = ident.get(nm, nm)
+            h = 'k_c03_arity_%s' % idn
+            tier = 'quick' if nm in quick else 'thorough'
+            out.append('    //@ob name=C03.dispatch.%s harness=%s props=C03,C02,C01 tier=%s strength=bounded bound="operand counts 0..6 and the unbracketed form (is_valid_len itself: Verus, every usize)" fns=op::op_from_map,op::NumParams::check_len replay=generic stubs=1 timeout=400' % (idn, h, tier))
+            out.append('    //@ desc="{\\"%s\\": [a1..an]} for n=0..6 is dispatched with exactly the n operands in order iff n is documented, otherwise Err(WrongArgumentCount); {\\"%s\\": x} behaves exactly as {\\"%s\\": [x]}"' % (nm, nm, nm))
+            out.append('    arity_harness!(%s, %s, "%s", 0, 6, true);' % (h, ['OPERATOR_MAP', 'DATA_OPERATOR_MAP', 'LAZY_OPERATOR_MAP'][t], nm))
+    p = os.path.join(VERIF, 'kani', 'op__mod.rs')
+    s = open(p).read()
+    head, tail = s.split('//@GENERATED-ARITY', 1)
+    rest = tail[tail.index('//@END-GENERATED-ARITY'):]
+    open(p, 'w').write(head + '//@GENERATED-ARITY\n' + '\n'.join(out) + '\n' + rest)
+# gen_arity()  -- op_from_map on real BTreeMap-backed objects does not finish in CBMC; it is under Verus instead
